@@ -737,6 +737,17 @@ func run(c *core.Ctx) {
 					ground(r, "BLAKE3", []string{"ed25519", "X", "Ed448", strings.Repeat("T", 255)}[r.IntN(4)], 32),
 					ground(r, hashNames[r.IntN(len(hashNames))], "Ed25519", []int{6, 16, 48}[r.IntN(3)]),
 				)
+				// a real key whose true digest lies outside fd00::/8: address = digest(key), but not a Mycoria address
+				ids = append(ids, func() identity {
+					for {
+						priv := ed25519.NewKeyFromSeed(core.RandBytes(r, 32))
+						pub := []byte(priv.Public().(ed25519.PublicKey))
+						d, _ := digest("BLAKE3", "Ed25519", pub, 0)
+						if d[0] != 0xfd {
+							return identity{ip: netip.AddrFrom16([16]byte(d[:16])), hash: "BLAKE3", ktype: "Ed25519", key: pub, priv: priv, field: "ground", class: "ground:true-digest-outside-fd00/8"}
+						}
+					}
+				}())
 				// the one ground class the reference accepts: a real Ed25519 key under another valid hash algorithm
 				ids = append(ids, func() identity {
 					g := validIdentity(r, hashNames[r.IntN(len(hashNames)-1)], 0)
